@@ -65,6 +65,26 @@ def c01_scenarios(rng, n):
                 s["tree"]["p.diff"] = ("R", 0o644, text)
             s["opts"]["p"] = depth
         scns.append(s)
+    # one old file both renamed and copied (and perhaps changed under a third name), the entries in either order: every entry
+    # of a git patch is relative to the old tree
+    for _ in range(n // 10):
+        src = rng.choice(["lib/src.txt", "s.c"])
+        r_ = scen.section(rng, src, kind="rename", fmt="git", nonl=False)
+        while True:
+            c_ = scen.section(rng, src, kind="copy", fmt="git", nonl=False)
+            if c_["newpath"] != r_["newpath"]:
+                break
+        # both sections have to speak about the same old content: rebuild the copy from the rename's old side
+        a = r_["a"]
+        ops = [(" ", l) for l in a]
+        if a:
+            i_ = rng.randrange(len(a)); ops[i_] = ("-", a[i_]); ops.insert(i_ + 1, ("+", (a[i_][0] + " copy", "L")))
+        hs = gen.hunks_from_ops(ops, 2)
+        c_ = dict(c_, a=a, b=[l for o_, l in ops if o_ != "-"], hs=hs, ops=ops, text=emit.emit_git(src, c_["newpath"], hs, kind="copy"))
+        other = scen.section(rng, "other.txt", kind="change", fmt="git", nonl=False)
+        order = rng.choice([[r_, c_], [c_, r_], [r_, other, c_], [r_, c_, other]])
+        s0 = scen.base_scenario(rng, order, opts={})
+        scns.append(s0)
     # longer files, many hunks, function headings on every hunk separator (diff -p / -F), all three formats with a separator
     for _ in range(n // 8):
         a = [("%s line %d" % (rng.choice(["int f", "x", "  y", "def g", "z"]), i), "L") for i in range(rng.randint(18, 30))]
